@@ -190,7 +190,9 @@ def main():
         'engines': [{'name': 'simfw', 'path': 'simfw/', 'serves_properties': sorted(CHECKS),
                      'kind_free_text': 'hand-written deterministic simulator: seeded session generator, op '
                                        'interpreter over the real library, fault injectors (chaos(), SimFS), ddmin '
-                                       'minimiser, fresh-interpreter replay'}],
+                                       'minimiser, fresh-interpreter replay; one block of runs = one forked process '
+                                       'history, violations that need earlier runs of their process are replayed with '
+                                       'the shrunk sequence of those runs'}],
         'checks': checks,
         'not_applicable': na,
         'notes': 'Python 3.12 at /venv/bin/python, standard library only. ./run replay <file> re-executes a recorded '
